@@ -149,14 +149,10 @@ def neighbour_wiring(ctx, rid):
                "computed from the wrong tour" % ("successor's start depot" if ok0 else "predecessor's end depot"), loc=tup[0].line())
 
 
-def rules(ctx):
-    common.who_may_construct(ctx, "R1.transition-producers", TRANSITION, [TRANSITION + "::*"],
-                             "Transition values are built only inside impl Transition")
-    common.who_may_construct(ctx, "R1.cycle-producers", TCYCLE, [TCYCLE + "::*"],
-                             "TransitionCycle values are built only inside impl TransitionCycle")
-    common.who_may_call(ctx, "R1.cycle-new-callers", TCYCLE + "::new", [TRANSITION + "::", TCYCLE + "::"],
-                        "TransitionCycle::new is called only from the transition module", floor=5)
-    sites = common.coupled_updates(ctx, "R2", TRANSITION, common.TRANSITION_PAIRS, floor=6)
+def empty_cycle_bookkeeping(ctx, sites=None):
+    """adding / removing a vehicle keeps cycles, the vehicle lookup and the free-list of empty cycles in step (shared with C10)"""
+    if sites is None:
+        sites = common.sites_of(ctx, TRANSITION)
     # functions that add or remove a vehicle change the lookup
     for fn in ("add_vehicle_to_own_cycle", "remove_vehicle", "add_vehicle_at_the_end"):
         ss = [s for s in sites if s.fn == TR(fn)]
@@ -170,8 +166,6 @@ def rules(ctx):
         bad = [f for f in ("cycles", "cycle_lookup", "empty_cycles") if ss[0].fields[f].kind == "same"]
         ctx.decide(o, not bad, "cycles/cycle_lookup/empty_cycles all rebuilt",
                    "%s inherits %s unchanged from self" % (fn, ", ".join(bad)), loc=ss[0].instr.line(), sample=row)
-    common.lost_update_rule(ctx, "R3", TRANSITION, sites)
-    counter_plain_sum(ctx, sites)
     # the empty-cycle entry removed is the one of the cycle being filled
     o, fdx = ctx.require_fn("R3.add_vehicle_at_the_end.removes-own-empty-entry", "T1", TR("add_vehicle_at_the_end"),
                             "add_vehicle_at_the_end removes exactly the entry of the target cycle from the list of empty cycles")
@@ -197,10 +191,23 @@ def rules(ctx):
                         cmp_ops.add(i2.rv["op"])
         if ok and cmp_ops == {"Eq"}:
             ctx.bad(o, "retain keeps only the entry of the target cycle (`==`) instead of dropping it (`!=`)")
-            return
-        ctx.decide(o, ok, "the write to empty_cycles depends on new_cycle_idx",
-                   "the entry removed from empty_cycles does not depend on the target cycle index (e.g. pop()): a still-empty cycle is "
-                   "forgotten and an occupied one stays listed as reusable")
+        else:
+            ctx.decide(o, ok, "the write to empty_cycles depends on new_cycle_idx",
+                       "the entry removed from empty_cycles does not depend on the target cycle index (e.g. pop()): a still-empty cycle is "
+                       "forgotten and an occupied one stays listed as reusable")
+
+
+def rules(ctx):
+    common.who_may_construct(ctx, "R1.transition-producers", TRANSITION, [TRANSITION + "::*"],
+                             "Transition values are built only inside impl Transition")
+    common.who_may_construct(ctx, "R1.cycle-producers", TCYCLE, [TCYCLE + "::*"],
+                             "TransitionCycle values are built only inside impl TransitionCycle")
+    common.who_may_call(ctx, "R1.cycle-new-callers", TCYCLE + "::new", [TRANSITION + "::", TCYCLE + "::"],
+                        "TransitionCycle::new is called only from the transition module", floor=5)
+    sites = common.coupled_updates(ctx, "R2", TRANSITION, common.TRANSITION_PAIRS, floor=6)
+    empty_cycle_bookkeeping(ctx, sites)
+    common.lost_update_rule(ctx, "R3", TRANSITION, sites)
+    counter_plain_sum(ctx, sites)
     neighbour_wiring(ctx, "R3")
     three_opt_reconnection(ctx, "R3")
     inf_conversions(ctx, "R4")
